@@ -5,10 +5,12 @@ package main
 //   calls        every call through a field of type onEntriesHandler / onSpanHandler / onProfileHandler in
 //                writer/utils/unmarshal: (function, handler type, source text of every argument)
 //   argWrites    for every slice-typed argument of such a call that is a variable or a field: every statement of the
-//                package that assigns to that variable / field (function, left-hand side, right-hand side), in source
-//                order — the appends, re-slices and makes that decide its length
+//                package that assigns to that variable / field (function, left-hand side, right-hand side, the conditions
+//                that dominate the statement — as in the census), in source order — the appends, re-slices and makes
+//                that decide its length
 //   builderWrites  every assignment to a field of the open request objects of parserDoer (p.spans.…, p.attrs.…,
-//                p.profile.…, p.tsSpl.spl.…, p.tsSpl.ts.…) in builder.go: (function, left-hand side, right-hand side)
+//                p.profile.…, p.tsSpl.spl.…, p.tsSpl.ts.…) in builder.go: (function, left-hand side, right-hand side,
+//                dominating conditions)
 //
 // The three lists are pinned by `C05.builder_calls_pinned`: an edit that changes what a decoder passes to a builder
 // callback, how it grows an argument array, or which columns a builder callback appends to, has to be re-read against
@@ -122,9 +124,14 @@ func init() {
 			}
 			return false
 		}
-		for _, fb := range bodies {
-			ast.Inspect(fb.body, func(n ast.Node) bool {
-				switch x := n.(type) {
+		// walked with the census walker so that every write carries the conditions that dominate it (callbacks handed to
+		// library functions — d.Obj(func…), d.Arr(func…) — are walked in place; nested literal values on their own)
+		guardsOf := func(gs []string) string {
+			return c5LeanList(gs)
+		}
+		record := func(label string) func(sc *c5Scope, st ast.Stmt, guards []string) {
+			return func(sc *c5Scope, st ast.Stmt, guards []string) {
+				switch x := st.(type) {
 				case *ast.AssignStmt:
 					for i, l := range x.Lhs {
 						rhs := ""
@@ -138,29 +145,60 @@ func init() {
 						}
 						lt := c5Text(l)
 						if o := objOfExpr(l); o != nil && tracked[o] {
-							argW = append(argW, site{x.Pos(), fmt.Sprintf("(%s, %s, %s)", leanStr(fb.label), leanStr(lt), leanStr(rhs))})
+							argW = append(argW, site{x.Pos(), fmt.Sprintf("(%s, %s, %s, %s)", leanStr(label), leanStr(lt), leanStr(rhs), guardsOf(guards))})
 						}
-						if strings.HasPrefix(fb.label, "unmarshal.parserDoer.") && isBuilderField(lt) {
-							bW = append(bW, site{x.Pos(), fmt.Sprintf("(%s, %s, %s)", leanStr(fb.label), leanStr(lt), leanStr(rhs))})
+						if strings.HasPrefix(label, "unmarshal.parserDoer.") && isBuilderField(lt) {
+							bW = append(bW, site{x.Pos(), fmt.Sprintf("(%s, %s, %s, %s)", leanStr(label), leanStr(lt), leanStr(rhs), guardsOf(guards))})
 						}
 					}
-				case *ast.ValueSpec:
-					for i, id := range x.Names {
-						if o := info.Defs[id]; o != nil && tracked[o] {
-							rhs := ""
-							if i < len(x.Values) {
-								rhs = c5Text(x.Values[i])
+				case *ast.DeclStmt:
+					if gd, ok := x.Decl.(*ast.GenDecl); ok {
+						for _, sp := range gd.Specs {
+							vs, ok := sp.(*ast.ValueSpec)
+							if !ok {
+								continue
 							}
-							argW = append(argW, site{x.Pos(), fmt.Sprintf("(%s, %s, %s)", leanStr(fb.label), leanStr(id.Name), leanStr("var "+rhs))})
+							for i, id := range vs.Names {
+								if o := info.Defs[id]; o != nil && tracked[o] {
+									rhs := ""
+									if i < len(vs.Values) {
+										rhs = c5Text(vs.Values[i])
+									}
+									argW = append(argW, site{x.Pos(), fmt.Sprintf("(%s, %s, %s, %s)", leanStr(label), leanStr(id.Name), leanStr("var "+rhs), guardsOf(guards))})
+								}
+							}
 						}
 					}
 				case *ast.IncDecStmt:
 					if o := objOfExpr(x.X); o != nil && tracked[o] {
-						argW = append(argW, site{x.Pos(), fmt.Sprintf("(%s, %s, %s)", leanStr(fb.label), leanStr(c5Text(x.X)), leanStr(x.Tok.String()))})
+						argW = append(argW, site{x.Pos(), fmt.Sprintf("(%s, %s, %s, %s)", leanStr(label), leanStr(c5Text(x.X)), leanStr(x.Tok.String()), guardsOf(guards))})
 					}
+				}
+			}
+		}
+		walkBody := func(label string, body *ast.BlockStmt, file *ast.File) {
+			w := &c5Walk{pr: pr, externs: map[string]bool{}, visited: map[ast.Node]bool{}, edges: map[ast.Node]bool{}}
+			w.assignHook = record(label)
+			sc := &c5Scope{pkg: up, file: file, body: body, fn: label, rangeKey: map[types.Object]string{}}
+			w.block(sc, body.List, nil)
+			// literal VALUES written in this body (stored closures): their statements, under the guard "closure"
+			ast.Inspect(body, func(n ast.Node) bool {
+				if fl, ok := n.(*ast.FuncLit); ok && !w.visited[fl] {
+					w.visited[fl] = true
+					w.block(sc, fl.Body.List, []string{"closure"})
 				}
 				return true
 			})
+		}
+		for _, f := range up.Syntax {
+			if strings.HasSuffix(pr.rel(f.Pos()), "_test.go") {
+				continue
+			}
+			for _, d := range f.Decls {
+				if fd, ok := d.(*ast.FuncDecl); ok && fd.Body != nil {
+					walkBody(c5DeclLabel(up, fd), fd.Body, f)
+				}
+			}
 		}
 		emit := func(xs []site) string {
 			// by file name and offset: raw token.Pos values depend on the order in which the files were parsed
@@ -181,10 +219,10 @@ func init() {
 		sb.WriteString("namespace Qryn.Gen.BuilderCalls\n")
 		sb.WriteString("/-- every call of a builder callback: (function, handler type, argument texts) -/\n")
 		sb.WriteString("def calls : List (String × String × List String) :=\n  " + emit(calls) + "\n")
-		sb.WriteString("/-- every assignment to a variable / field that is passed as a slice argument to a builder callback:\n    (function, left-hand side, right-hand side) -/\n")
-		sb.WriteString("def argWrites : List (String × String × String) :=\n  " + emit(argW) + "\n")
+		sb.WriteString("/-- every assignment to a variable / field that is passed as a slice argument to a builder callback:\n    (function, left-hand side, right-hand side, dominating conditions) -/\n")
+		sb.WriteString("def argWrites : List (String × String × String × List String) :=\n  " + emit(argW) + "\n")
 		sb.WriteString("/-- every assignment to a field of parserDoer's open request objects: (function, left-hand side, right-hand side) -/\n")
-		sb.WriteString("def builderWrites : List (String × String × String) :=\n  " + emit(bW) + "\n")
+		sb.WriteString("def builderWrites : List (String × String × String × List String) :=\n  " + emit(bW) + "\n")
 		sb.WriteString("end Qryn.Gen.BuilderCalls\n")
 		return sb.String(), nil
 	})
